@@ -905,6 +905,15 @@ def specs(tier):
         add(b(2, FULL), cs=["p1", "p1"], ss=["d1", "d1"], limit=limit, lower=lower, stream="req")
         if thorough:
             add(3, cs=["p1", "g", "p1"], ss=["d1", "d1", "d1"], limit=limit, lower=lower, stream="both")
+    # 3b. raising the limit mid-run while streams are waiting, followed by further client streams
+    add(b(2, 3), cs=["g", "p1", "g", "g"], ss=["h", "d1", "h", "h"], limit=2, lower=3)
+    add(b(2, 3), cs=["g", "g", "g", "g"], ss=["h", "h", "h", "h"], limit=1, lower=2, stream="req")
+    for limit, lower in ((1, 2), (1, 3)):
+        add(b(3, FULL), cs=["p1", "p1", "g"], ss=["d1", "d1", "h"], limit=limit, lower=lower)
+        add(b(2, FULL), cs=["g", "g", "g"], ss=["h", "h", "h"], limit=limit, lower=lower, stream="req")
+        if limit == 1:
+            add(b(2, 4), cs=["p1", "g", "p2"], ss=["d1", "h", "d1"], limit=limit, lower=lower, stream="both")
+            add(b(2, 4), cs=["p1", "p1", "g"], ss=["d1", "d1", "h"], limit=limit, lower=lower, seg="coalesce")
     add(b(3, FULL),cs=["p1", "p1", "g"], ss=["d1", "h", "d1"], limit=1, sset="late")
     add(b(2, FULL), cs=["p1", "p1"], ss=["d1", "d1"], limit=1, sset="late", stream="req")
     add(b(3, FULL),cs=["p1", "g", "p1"], ss=["d1", "d1", "h"], limit=2, connect="manual")
@@ -999,7 +1008,7 @@ def run(ctx):
         "configurations": len(sp),
         "client_shapes": {k: ["".join(str(x) for x in a) for a in v] for k, v in CLIENT_SHAPES.items()},
         "server_shapes": sorted(SERVER_SHAPES), "h1_shapes": sorted(H1_SHAPES),
-        "limits": ["default", 1, 2], "lowered_to": [None, 1], "stream": ["none", "req", "resp", "both"], "window": [None, 4],
+        "limits": ["default", 1, 2], "mid_run_settings": ["none", "lowered to 1", "raised to 2 or 3"], "streams": "2-4", "stream": ["none", "req", "resp", "both"], "window": [None, 4],
         "segmentation": ["whole", "mid", "bytes", "coalesce"],
         "deviation_bounds": sorted(set(b for _, b in sp)), "note": "bound 99 = every schedule of that configuration",
     }
